@@ -847,8 +847,14 @@ func (vsc *virtualServerConfigurator) GenerateVirtualServerConfig(
 		}
 	}
 
-	for mapName, apiKeyClients := range policiesCfg.APIKey.ClientMap {
-		maps = append(maps, *generateAPIKeyClientMap(mapName, apiKeyClients))
+	// iterate in a fixed order: the generated configuration must not depend on Go's map iteration order
+	apiKeyMapNames := make([]string, 0, len(policiesCfg.APIKey.ClientMap))
+	for mapName := range policiesCfg.APIKey.ClientMap {
+		apiKeyMapNames = append(apiKeyMapNames, mapName)
+	}
+	sort.Strings(apiKeyMapNames)
+	for _, mapName := range apiKeyMapNames {
+		maps = append(maps, *generateAPIKeyClientMap(mapName, policiesCfg.APIKey.ClientMap[mapName]))
 	}
 
 	httpSnippets := generateSnippets(vsc.enableSnippets, vsEx.VirtualServer.Spec.HTTPSnippets, []string{})
@@ -1477,6 +1483,10 @@ func generateAPIKeyClients(secretData map[string][]byte) []apiKeyClient {
 		sha256Hash := hex.EncodeToString(h.Sum(nil))
 		clients = append(clients, apiKeyClient{ClientID: clientID, HashedKey: sha256Hash}) //
 	}
+	// secretData is a map: sort so that the generated configuration does not depend on its iteration order
+	sort.Slice(clients, func(i, j int) bool {
+		return clients[i].ClientID < clients[j].ClientID
+	})
 	return clients
 }
 
@@ -1708,7 +1718,15 @@ func (vsc *virtualServerConfigurator) generatePolicies(
 	}
 
 	if len(config.RateLimit.PolicyGroupMaps) > 0 {
-		for _, v := range generateLRZGroupMaps(config.RateLimit.Zones) {
+		groupMaps := generateLRZGroupMaps(config.RateLimit.Zones)
+		// iterate in a fixed order: the generated configuration must not depend on Go's map iteration order
+		groupVariables := make([]string, 0, len(groupMaps))
+		for groupVariable := range groupMaps {
+			groupVariables = append(groupVariables, groupVariable)
+		}
+		sort.Strings(groupVariables)
+		for _, groupVariable := range groupVariables {
+			v := groupMaps[groupVariable]
 			if hasDuplicateMapDefaults(v) {
 				vsc.addWarningf(ownerDetails.owner, "Tiered rate-limit Policies on [%v/%v] contain conflicting default values", ownerDetails.ownerNamespace, ownerDetails.ownerName)
 				return policiesCfg{
